@@ -239,8 +239,11 @@ func newCenvWith(h map[string]string, mgr *circuit.Manager) *cenv {
 			}, RollingDuration: time.Duration(getI(h, "o_dur", 10_000_000_000)), NumBuckets: int(getI(h, "o_n", 10))}
 		// the opener's settings reach it through hystrix.Factory layering: thresholds factory-wide, the rest per circuit
 		ohf := hystrix.Factory{
-			ConfigureOpener: hystrix.ConfigureOpener{ErrorThresholdPercentage: e.ocfg.ErrorThresholdPercentage, RequestVolumeThreshold: e.ocfg.RequestVolumeThreshold},
+			// (likewise a rolling duration and a bucket count that must LOSE against the per-circuit constructor's)
+			ConfigureOpener: hystrix.ConfigureOpener{ErrorThresholdPercentage: e.ocfg.ErrorThresholdPercentage, RequestVolumeThreshold: e.ocfg.RequestVolumeThreshold, RollingDuration: 9, NumBuckets: 9},
 			CreateConfigureOpener: []func(string) hystrix.ConfigureOpener{func(string) hystrix.ConfigureOpener {
+				return hystrix.ConfigureOpener{RollingDuration: 8, NumBuckets: 8}
+			}, func(string) hystrix.ConfigureOpener {
 				return hystrix.ConfigureOpener{Now: e.ocfg.Now, RollingDuration: e.ocfg.RollingDuration, NumBuckets: e.ocfg.NumBuckets}
 			}},
 		}
@@ -275,8 +278,12 @@ func newCenvWith(h map[string]string, mgr *circuit.Manager) *cenv {
 			}}
 		// likewise the closer: probe budget and required successes factory-wide, window and timer hook per circuit
 		chf := hystrix.Factory{
-			ConfigureCloser: hystrix.ConfigureCloser{HalfOpenAttempts: e.ccfg.HalfOpenAttempts, RequiredConcurrentSuccessful: e.ccfg.RequiredConcurrentSuccessful},
+			// (the factory-wide layer and a second per-circuit constructor also carry a sleep window — one that must LOSE:
+			// per-circuit constructors win over the factory-wide value, the constructor appended LAST over earlier ones)
+			ConfigureCloser: hystrix.ConfigureCloser{HalfOpenAttempts: e.ccfg.HalfOpenAttempts, RequiredConcurrentSuccessful: e.ccfg.RequiredConcurrentSuccessful, SleepWindow: 3},
 			CreateConfigureCloser: []func(string) hystrix.ConfigureCloser{func(string) hystrix.ConfigureCloser {
+				return hystrix.ConfigureCloser{SleepWindow: 7}
+			}, func(string) hystrix.ConfigureCloser {
 				return hystrix.ConfigureCloser{SleepWindow: e.ccfg.SleepWindow, AfterFunc: e.ccfg.AfterFunc}
 			}},
 		}
